@@ -38,7 +38,8 @@ class C09(Prop):
         from vf import gen_verilog
 
         api = st.tuples(gen_ir.recipes(self.cfg(tier)), st.sampled_from(["DEFAULT", "DEFAULT", "EDIF"]),
-                        st.booleans()).map(lambda t: dict(t[0], policy=t[1], via_clone=t[2]))
+                        st.booleans(), st.one_of(st.none(), st.integers(0, 30))).map(
+            lambda t: dict(t[0], policy=t[1], via_clone=t[2], grow=t[3]))
         ecfg = gen_ir.Cfg(unnamed=False, alphabet=["a", "b", "c", "d", "clk", "data", "q", "sel", "Top",
                                                    "U1", "n_1", "x y", "a.b", "3d", "net$1", "_u"],
                           max_defs=6, max_children=4, max_width=3, share=True, top="always",
@@ -103,12 +104,53 @@ class C09(Prop):
                 res.label("on-a-clone")
             except Exception:  # noqa (C07's business)
                 pass
+        if not self.flatten_and_judge(res, nl) or res.violations:
+            return res
+        # second stage: a definition that was a leaf during the first flatten gets contents through the
+        # public API; flatten must then dissolve its (now hierarchical) instances as well
+        if case.get("grow") is not None and self.grow_a_leaf(nl, case["grow"]):
+            res.label("second-flatten-after-leaf-grew")
+            self.flatten_and_judge(res, nl, tag=":second")
+        return res
+
+    @staticmethod
+    def grow_a_leaf(nl, i):
+        T = nl.top_instance.reference
+        used = []
+        for ch in T.children:
+            if ch.reference is not None and not any(ch.reference is u for u in used):
+                used.append(ch.reference)
+        if not used:
+            return False
+        L = used[i % len(used)]
+        others = [D for lib in nl.libraries for D in lib.definitions
+                  if D is not L and D is not T and model.is_leaf_def(D)]
+        if not others or not model.is_leaf_def(L):
+            return False
+        M = others[i % len(others)]
+        g = L.create_child(name="grown", reference=M)
+        w = L.create_cable(name="grown_net").create_wire()
+        for P in L.ports:
+            if P.pins:
+                w.connect_pin(P.pins[0])
+                break
+        for P in M.ports:
+            if P.pins:
+                w.connect_pin(g.pins[P.pins[0]])
+                break
+        return True
+
+    def flatten_and_judge(self, res, nl, tag=""):
+        """uniquify, elaborate independently, flatten, compare; False when the case is not judged"""
+        import spydrnet.uniquify as U
+        import spydrnet.flatten as F
+
         ndefs = sum(len(L.definitions) for L in nl.libraries)
         try:
             U.uniquify(nl)
         except Exception as e:  # noqa  (C08's business; not judged here)
             res.label("uniquify-raised")
-            return res
+            return False
         if sum(len(L.definitions) for L in nl.libraries) != ndefs:
             res.label("via-uniquify")
         else:
@@ -129,7 +171,7 @@ class C09(Prop):
         walk(top, ())
         depth = max([len(p) for p in before["occ"]] + [0])
         crossing = [c for c in before["classes"] if len({p for p, _ in c}) >= 2]
-        if depth >= 2 and crossing:
+        if depth >= 2 and crossing and not tag:
             res.nontrivial = True
         if any(len({len(p) for p, _ in c}) >= 3 for c in crossing):
             res.label("net-crosses>=2-levels")
@@ -140,29 +182,29 @@ class C09(Prop):
         try:
             F.flatten(nl)
         except Exception as e:  # noqa
-            res.violate("C09:flatten-raises:%s" % type(e).__name__, repr(e))
-            return res
+            res.violate("C09:flatten-raises%s:%s" % (tag, type(e).__name__), repr(e))
+            return True
         T = nl.top_instance.reference
         got = {}
         for ch in T.children:
             R = ch.reference
             if R is None or not model.is_leaf_def(R):
-                res.violate("C09:hierarchical-instance-remains", repr(ch.name))
+                res.violate("C09:hierarchical-instance-remains" + tag, repr(ch.name))
                 continue
             if ch.name in got:
-                res.violate("C09:duplicate-leaf-name", repr(ch.name))
+                res.violate("C09:duplicate-leaf-name" + tag, repr(ch.name))
             got[ch.name] = ch
         want = {"/".join(p): v for p, v in insts.items()}
         if set(got) != set(want):
-            res.violate("C09:leaf-set-differs", "missing %r extra %r" % (
+            res.violate("C09:leaf-set-differs" + tag, "missing %r extra %r" % (
                 sorted(set(want) - set(got))[:4], sorted(set(got) - set(want))[:4]))
         else:
             for name, (R, data) in want.items():
                 ch = got[name]
                 if ch.reference is not R:
-                    res.violate("C09:leaf-definition-changed", name)
+                    res.violate("C09:leaf-definition-changed" + tag, name)
                 if leaf_data(ch) != data:
-                    res.violate("C09:leaf-data-changed", "%s: %r -> %r" % (name, data, leaf_data(ch)))
+                    res.violate("C09:leaf-data-changed" + tag, "%s: %r -> %r" % (name, data, leaf_data(ch)))
         # partition read directly off the flat top definition
         port_pos = {}
         for pi, P in enumerate(T.ports):
@@ -195,7 +237,7 @@ class C09(Prop):
                     groups.append(frozenset(g))
                     seen |= g
         if dangling:
-            res.violate("C09:flat-wire-lists-foreign-pin")
+            res.violate("C09:flat-wire-lists-foreign-pin" + tag)
         for e in port_pos.values():
             if e not in seen:
                 groups.append(frozenset([e]))
@@ -209,9 +251,12 @@ class C09(Prop):
                     if e not in seen:
                         groups.append(frozenset([e]))
         after = frozenset(groups)
-        if after != before["nets"] and not res.violations:
-            a, b = before["nets"], after
-            res.violate("C09:connectivity-changed", "only before: %r ; only after: %r" % (
+        # (second stage: instance names of the flat top already contain "/"; compare by joined path)
+        flat = lambda e: e if e[0] != "leaf" else ("leaf", tuple("/".join(e[1]).split("/")), e[2], e[3])  # noqa
+        nets_before = frozenset(frozenset(flat(e) for e in g) for g in before["nets"])
+        if after != nets_before and not res.violations:
+            a, b = nets_before, after
+            res.violate("C09:connectivity-changed" + tag, "only before: %r ; only after: %r" % (
                 [sorted(x) for x in list(a - b)[:2]], [sorted(x) for x in list(b - a)[:2]]))
         for code, detail in model.wf(nl, strict=False):
             res.violate("C09:" + code, detail)
@@ -229,12 +274,12 @@ class C09(Prop):
                     got = sorted(id(x) for x in fn(T, nm))
                 except Exception as e:  # noqa
                     res.violate("C09:lookup-raises-after-flatten:%s" % type(e).__name__, repr(e))
-                    return res
+                    return True
                 if got != scan:
                     res.violate("C09:lookup-differs-from-scan-after-flatten:%s" % tag,
                                 "%r: lookup %d, scan %d" % (nm, len(got), len(scan)))
-                    return res
-        return res
+                    return True
+        return True
 
 
 PROP = C09()
